@@ -307,3 +307,502 @@ pub fn gen_litmus_template(rng: &mut Rng) -> Program {
     }
     p
 }
+
+// ------------------------------------------------------------------------------------------
+// sync family: threads + locks + condvars + Notify + park/unpark + channels + cells + atomics
+
+#[derive(Clone, Debug, Default)]
+pub struct SyncProfile {
+    pub spawned: usize,
+    pub max_blocks: usize,
+    pub atomics: bool,
+    pub mutex: usize,
+    pub rwlock: bool,
+    pub condvar: bool,
+    pub notify: bool,
+    pub chan: bool,
+    pub park: bool,
+    pub cells: bool,
+    pub try_ops: bool,
+    pub yields: bool,
+    /// stray wake-ups: unpark of arbitrary threads, duplicate notifies
+    pub wake_faults: bool,
+    pub main_participates: bool,
+    pub join_all: bool,
+    pub final_reads: bool,
+    pub palette_sc_only: bool,
+    pub max_total: usize,
+}
+
+pub fn sync_profile(rng: &mut Rng, focus: &str) -> SyncProfile {
+    let spawned = *rng.pick(&[1, 2, 2, 2, 3]);
+    let mut p = SyncProfile {
+        spawned,
+        max_blocks: rng.range(1, 3),
+        main_participates: rng.chance(1, 2),
+        join_all: rng.chance(4, 5),
+        final_reads: rng.chance(1, 2),
+        palette_sc_only: true,
+        max_total: 10,
+        ..Default::default()
+    };
+    // swarm: a random subset of kinds, the focus kind always on
+    p.atomics = rng.chance(1, 2);
+    p.mutex = *rng.pick(&[0, 1, 1, 2]);
+    p.rwlock = rng.chance(1, 4);
+    p.condvar = rng.chance(1, 4);
+    p.notify = rng.chance(1, 5);
+    p.chan = rng.chance(1, 4);
+    p.park = rng.chance(1, 4);
+    p.cells = rng.chance(1, 3);
+    p.try_ops = rng.chance(1, 2);
+    p.yields = false; // yield has scheduling semantics of its own (C18); not part of these families
+    match focus {
+        "lock" => {
+            p.mutex = rng.range(1, 2);
+            p.rwlock = rng.chance(1, 2);
+            p.cells = rng.chance(2, 3);
+            p.try_ops = rng.chance(2, 3);
+            p.condvar = false;
+            p.notify = false;
+            p.park = false;
+            p.chan = false;
+        }
+        "wait" => {
+            p.condvar = rng.chance(2, 3);
+            p.notify = rng.chance(1, 3);
+            p.park = rng.chance(1, 2);
+            if p.condvar && p.mutex == 0 {
+                p.mutex = 1;
+            }
+            p.chan = false;
+            p.wake_faults = rng.chance(1, 2);
+            p.cells = rng.chance(1, 3);
+        }
+        "deadlock" => {
+            p.mutex = rng.range(1, 2);
+            p.condvar = rng.chance(1, 2);
+            p.park = rng.chance(1, 2);
+            p.chan = rng.chance(1, 3);
+            p.notify = rng.chance(1, 4);
+            p.wake_faults = rng.chance(2, 3);
+            p.cells = false;
+            p.atomics = rng.chance(1, 4);
+        }
+        "chan" => {
+            p.chan = true;
+            p.condvar = false;
+            p.notify = false;
+            p.park = false;
+            p.mutex = *rng.pick(&[0, 0, 1]);
+            p.rwlock = false;
+            p.cells = rng.chance(1, 2);
+        }
+        _ => {}
+    }
+    if p.condvar && p.mutex == 0 {
+        p.mutex = 1;
+    }
+    p
+}
+
+struct SyncGen<'a> {
+    rng: &'a mut Rng,
+    pr: SyncProfile,
+    vs: ValueSrc,
+    n_atomics: usize,
+    n_cells: usize,
+    nt: usize,
+    /// designated receiver / Notify waiter threads
+    rx_thread: usize,
+    nwait_thread: usize,
+    total: usize,
+}
+
+impl<'a> SyncGen<'a> {
+    fn ord(&mut self) -> MO {
+        if self.pr.palette_sc_only {
+            MO::Sc
+        } else {
+            *self.rng.pick(&[MO::Rlx, MO::Acq, MO::Rel, MO::Sc])
+        }
+    }
+    fn simple_op(&mut self, t: usize) -> Option<Op> {
+        // a non-blocking op usable inside or outside critical sections
+        let mut kinds: Vec<u8> = Vec::new();
+        if self.pr.atomics {
+            kinds.extend([0, 0, 1, 1, 2]);
+        }
+        if self.pr.cells {
+            kinds.extend([3, 4]);
+        }
+        if self.pr.yields {
+            kinds.push(5);
+        }
+        if self.pr.wake_faults {
+            kinds.push(6);
+        }
+        if self.pr.notify {
+            kinds.push(7);
+        }
+        if self.pr.chan {
+            kinds.extend([8, 8]);
+        }
+        if self.pr.park {
+            kinds.push(6);
+        }
+        if self.pr.condvar {
+            kinds.extend([9, 10]);
+        }
+        if kinds.is_empty() {
+            return None;
+        }
+        let k = *self.rng.pick(&kinds);
+        Some(match k {
+            0 => Op::Load { a: self.rng.below(self.n_atomics) as u8, o: if self.pr.palette_sc_only { MO::Sc } else { pick_load_ord(self.rng, Palette::All) } },
+            1 => Op::Store { a: self.rng.below(self.n_atomics) as u8, v: self.vs.constant(), o: if self.pr.palette_sc_only { MO::Sc } else { pick_store_ord(self.rng, Palette::All) } },
+            2 => {
+                let a = self.rng.below(self.n_atomics) as u8;
+                let o = self.ord();
+                match self.vs.bit() {
+                    Some(b) => Op::FetchAdd { a, v: b, o: if o == MO::Rlx || o == MO::Sc { o } else { MO::AcqRel } },
+                    None => Op::Swap { a, v: self.vs.constant(), o: MO::Sc },
+                }
+            }
+            3 => Op::CRead { c: self.rng.below(self.n_cells) as u8 },
+            4 => Op::CWrite { c: self.rng.below(self.n_cells) as u8 },
+            5 => Op::Yield,
+            6 => {
+                let mut u = self.rng.below(self.nt);
+                if u == t {
+                    u = (u + 1) % self.nt;
+                }
+                Op::Unpark { t: u as u8 }
+            }
+            7 => Op::NNotify { n: 0 },
+            8 => Op::Send { c: 0, v: self.vs.constant() },
+            9 => Op::CvOne { c: 0 },
+            _ => Op::CvAll { c: 0 },
+        })
+    }
+
+    fn block(&mut self, t: usize, out: &mut Vec<Op>) {
+        let mut kinds: Vec<u8> = vec![0];
+        if self.pr.mutex > 0 {
+            kinds.extend([1, 1, 1]);
+        }
+        if self.pr.rwlock {
+            kinds.extend([2, 3]);
+        }
+        if self.pr.condvar {
+            kinds.extend([4, 4]);
+        }
+        if self.pr.notify && t == self.nwait_thread {
+            kinds.extend([5, 5]);
+        }
+        if self.pr.chan && t == self.rx_thread {
+            kinds.extend([6, 6, 6]);
+        }
+        if self.pr.park {
+            kinds.extend([7, 7]);
+        }
+        let k = *self.rng.pick(&kinds);
+        match k {
+            0 => {
+                if let Some(op) = self.simple_op(t) {
+                    out.push(op);
+                    self.total += 1;
+                }
+            }
+            1 => {
+                // critical section on a mutex (possibly nested with a second one)
+                let m = self.rng.below(self.pr.mutex) as u8;
+                let try_ = self.pr.try_ops && self.rng.chance(1, 3);
+                out.push(if try_ { Op::TryLock { m } } else { Op::Lock { m } });
+                let n = self.rng.range(0, 2);
+                for _ in 0..n {
+                    if self.pr.mutex > 1 && self.rng.chance(1, 4) {
+                        let m2 = (m + 1) % self.pr.mutex as u8;
+                        out.push(Op::Lock { m: m2 });
+                        if let Some(op) = self.simple_op(t) {
+                            out.push(op);
+                        }
+                        out.push(Op::Unlock { m: m2 });
+                        self.total += 3;
+                    } else if let Some(op) = self.simple_op(t) {
+                        out.push(op);
+                        self.total += 1;
+                    }
+                }
+                out.push(Op::Unlock { m });
+                self.total += 2;
+            }
+            2 => {
+                let try_ = self.pr.try_ops && self.rng.chance(1, 3);
+                out.push(if try_ { Op::TryRLock { l: 0 } } else { Op::RLock { l: 0 } });
+                if self.pr.cells && self.rng.chance(2, 3) {
+                    out.push(Op::CRead { c: self.rng.below(self.n_cells) as u8 });
+                } else if let Some(op) = self.simple_op(t) {
+                    out.push(op);
+                }
+                out.push(Op::RUnlock { l: 0 });
+                self.total += 3;
+            }
+            3 => {
+                let try_ = self.pr.try_ops && self.rng.chance(1, 3);
+                out.push(if try_ { Op::TryWLock { l: 0 } } else { Op::WLock { l: 0 } });
+                if self.pr.cells && self.rng.chance(2, 3) {
+                    out.push(Op::CWrite { c: self.rng.below(self.n_cells) as u8 });
+                } else if let Some(op) = self.simple_op(t) {
+                    out.push(op);
+                }
+                out.push(Op::WUnlock { l: 0 });
+                self.total += 3;
+            }
+            4 => {
+                // condvar wait under its mutex (no predicate loop: lost wake-ups are intended)
+                out.push(Op::Lock { m: 0 });
+                if self.rng.chance(1, 3) {
+                    if let Some(op) = self.simple_op(t) {
+                        out.push(op);
+                    }
+                }
+                out.push(Op::CvWait { c: 0, m: 0 });
+                if self.rng.chance(1, 3) {
+                    if let Some(op) = self.simple_op(t) {
+                        out.push(op);
+                    }
+                }
+                out.push(Op::Unlock { m: 0 });
+                self.total += 3;
+            }
+            5 => {
+                out.push(Op::NWait { n: 0 });
+                self.total += 1;
+            }
+            6 => {
+                out.push(if self.pr.try_ops && self.rng.chance(1, 3) { Op::TryRecv { c: 0 } } else { Op::Recv { c: 0 } });
+                self.total += 1;
+            }
+            _ => {
+                out.push(Op::Park);
+                self.total += 1;
+            }
+        }
+    }
+}
+
+pub fn gen_sync(rng: &mut Rng, pr: &SyncProfile) -> Program {
+    let nt = pr.spawned + 1;
+    let n_atomics = if pr.atomics { rng.range(1, 2) } else { 0 };
+    let n_cells = if pr.cells { rng.range(1, 2) } else { 0 };
+    let rx_thread = rng.below(nt);
+    let nwait_thread = rng.below(nt);
+    let mut g = SyncGen { rng, pr: pr.clone(), vs: ValueSrc::new(), n_atomics, n_cells, nt, rx_thread, nwait_thread, total: 0 };
+    let mut bodies: Vec<Vec<Op>> = vec![Vec::new(); nt];
+    let first = if pr.main_participates { 0 } else { 1 };
+    for t in first..nt {
+        let nb = g.rng.range(1, pr.max_blocks);
+        for _ in 0..nb {
+            if g.total >= pr.max_total {
+                break;
+            }
+            let mut out = Vec::new();
+            g.block(t, &mut out);
+            bodies[t].extend(out);
+        }
+    }
+    let mut p = Program {
+        atomics: vec![0; n_atomics],
+        n_mutex: pr.mutex as u8,
+        n_rwlock: pr.rwlock as u8,
+        n_condvar: pr.condvar as u8,
+        n_notify: pr.notify as u8,
+        n_chan: pr.chan as u8,
+        n_cell: n_cells as u8,
+        ..Default::default()
+    };
+    p.threads = vec![Vec::new(); nt];
+    for t in 1..nt {
+        p.threads[0].push(Op::Spawn { t: t as u8 });
+    }
+    p.threads[0].extend(std::mem::take(&mut bodies[0]));
+    for t in 1..nt {
+        if pr.join_all || g.rng.chance(1, 2) {
+            p.threads[0].push(Op::Join { t: t as u8 });
+        }
+    }
+    if pr.final_reads && pr.join_all {
+        for a in 0..n_atomics {
+            p.threads[0].push(Op::Load { a: a as u8, o: MO::Sc });
+        }
+        if pr.chan && rx_thread == 0 {
+            p.threads[0].push(Op::TryRecv { c: 0 });
+        }
+    }
+    for t in 1..nt {
+        p.threads[t] = std::mem::take(&mut bodies[t]);
+    }
+    p
+}
+
+// ------------------------------------------------------------------------------------------
+// race family (C04): non-atomic accesses + synchronisation idioms
+
+pub fn gen_race(rng: &mut Rng) -> Program {
+    let mut vs = ValueSrc::new();
+    let spawned = rng.range(1, 3);
+    let nt = spawned + 1;
+    let pal = *rng.pick(&[Palette::RlxOnly, Palette::RelAcq, Palette::RelAcq, Palette::RelAcq, Palette::All]);
+    let n_flags = rng.range(1, 2);
+    let use_mutex = rng.chance(1, 3);
+    let use_chan = rng.chance(1, 4);
+    let use_park = rng.chance(1, 5);
+    let use_atomic_na = rng.chance(1, 5);
+    let mut p = Program {
+        atomics: vec![0; n_flags + use_atomic_na as usize],
+        n_mutex: use_mutex as u8,
+        n_chan: use_chan as u8,
+        n_cell: 1,
+        ..Default::default()
+    };
+    let na_atomic = n_flags as u8; // index of the atomic accessed non-atomically
+    p.threads = vec![Vec::new(); nt];
+    // a chain: T1 writes the cell and publishes through flag0; T2 (optional hop) forwards flag0 -> flag1;
+    // the last thread waits for the flag and reads/writes the cell. Orderings are random, so the chain
+    // is sometimes properly synchronised and sometimes not.
+    let mut bodies: Vec<Vec<Op>> = vec![Vec::new(); nt];
+    let access = |rng: &mut Rng| -> Op {
+        if use_atomic_na && rng.chance(1, 2) {
+            if rng.chance(1, 2) {
+                Op::AWithMut { a: na_atomic, v: 7 }
+            } else {
+                Op::AUnsyncLoad { a: na_atomic }
+            }
+        } else if rng.chance(1, 2) {
+            Op::CWrite { c: 0 }
+        } else {
+            Op::CRead { c: 0 }
+        }
+    };
+    let order: Vec<usize> = {
+        let mut v: Vec<usize> = (0..nt).collect();
+        rng.shuffle(&mut v);
+        v
+    };
+    let producer = order[0];
+    // producer
+    bodies[producer].push(access(rng));
+    let mut prev_val: Vec<Option<(u8, u64)>> = Vec::new(); // (flag, value) to wait for per hop
+    let hops = nt - 1;
+    let mut published: Option<(u8, u64)> = None;
+    for h in 0..hops {
+        let from = order[h];
+        let to = order[h + 1];
+        // how does `from` hand over to `to`?
+        let how = {
+            let mut ks = vec![0u8, 0, 0];
+            let already_locks = |b: &Vec<Op>| b.iter().any(|o| matches!(o, Op::Lock { .. }));
+            if use_mutex && !already_locks(&bodies[from]) && !already_locks(&bodies[to]) {
+                ks.push(1);
+            }
+            if use_chan && h == 0 {
+                ks.push(2);
+            }
+            if use_park {
+                ks.push(3);
+            }
+            *rng.pick(&ks)
+        };
+        match how {
+            0 => {
+                // atomic flag
+                let f = (h % n_flags) as u8;
+                let v = vs.constant();
+                if pal != Palette::RlxOnly && rng.chance(1, 4) {
+                    bodies[from].push(Op::Fence { o: *rng.pick(&[MO::Rel, MO::AcqRel, MO::Sc]) });
+                    bodies[from].push(Op::Store { a: f, v, o: MO::Rlx });
+                } else if rng.chance(1, 5) {
+                    bodies[from].push(Op::Swap { a: f, v, o: pick_rmw_ord(rng, pal) });
+                } else {
+                    bodies[from].push(Op::Store { a: f, v, o: pick_store_ord(rng, pal) });
+                }
+                let o = pick_load_ord(rng, pal);
+                bodies[to].push(Op::Load { a: f, o });
+                let pc = (bodies[to].len() - 1) as u8;
+                let fence_after = pal != Palette::RlxOnly && rng.chance(1, 4);
+                if fence_after {
+                    bodies[to].push(Op::Fence { o: *rng.pick(&[MO::Acq, MO::AcqRel, MO::Sc]) });
+                }
+                published = Some((pc, v));
+            }
+            1 => {
+                // lock hand-over: both sides access under the mutex (always ordered)
+                let a1 = bodies[from].pop();
+                bodies[from].push(Op::Lock { m: 0 });
+                if let Some(a) = a1 {
+                    bodies[from].push(a);
+                }
+                bodies[from].push(Op::Unlock { m: 0 });
+                bodies[to].push(Op::Lock { m: 0 });
+                bodies[to].push(access(rng));
+                bodies[to].push(Op::Unlock { m: 0 });
+                published = None;
+                prev_val.push(None);
+                continue;
+            }
+            2 => {
+                let v = vs.constant();
+                bodies[from].push(Op::Send { c: 0, v });
+                bodies[to].push(Op::Recv { c: 0 });
+                let pc = (bodies[to].len() - 1) as u8;
+                published = Some((pc, v));
+            }
+            _ => {
+                bodies[from].push(Op::Unpark { t: to as u8 });
+                bodies[to].push(Op::Park);
+                published = None;
+                bodies[to].push(access(rng));
+                prev_val.push(None);
+                continue;
+            }
+        }
+        // consumer side of this hop: act only if the value was observed
+        if let Some((pc, v)) = published {
+            let is_last = h + 1 == hops;
+            if is_last || rng.chance(1, 2) {
+                bodies[to].push(Op::If { pc, eq: v, then: Box::new(access(rng)) });
+            }
+            if !is_last {
+                // forward: the next hop's publication is conditional too
+                // (emitted by the next loop iteration unconditionally; keeping it simple)
+            }
+        }
+        prev_val.push(published);
+    }
+    // occasionally an extra unsynchronised access somewhere
+    if rng.chance(1, 5) {
+        let t = rng.below(nt);
+        bodies[t].push(access(rng));
+    }
+    for t in 1..nt {
+        p.threads[0].push(Op::Spawn { t: t as u8 });
+    }
+    // main's body is placed after the spawns: shift the pcs its `If`s refer to
+    for op in bodies[0].iter_mut() {
+        if let Op::If { pc, .. } = op {
+            *pc += spawned as u8;
+        }
+    }
+    p.threads[0].extend(std::mem::take(&mut bodies[0]));
+    for t in 1..nt {
+        p.threads[0].push(Op::Join { t: t as u8 });
+    }
+    if rng.chance(1, 3) {
+        p.threads[0].push(access(rng));
+    }
+    for t in 1..nt {
+        p.threads[t] = std::mem::take(&mut bodies[t]);
+    }
+    p
+}
